@@ -273,6 +273,29 @@ func flowEngine(args []string) error {
 		// the defaults added by readHostsFile
 		ipmap = append(ipmap, sx("127.0.0.1")+":"+sx("127.0.0.1")+":7f000001", sx("::1")+":"+sx("::1")+":"+hx(net.ParseIP("::1")))
 		hosts := &discovery.Hosts{}
+		if i%3 == 1 {
+			// history: the daemon has been running on an earlier hosts file (of any age) when this content is
+			// written; six seconds later -- the table is re-checked every five -- the new content must be in effect
+			prevContent := genHostsFile(r)
+			_ = os.WriteFile(hf, []byte(prevContent), 0644)
+			age := []time.Duration{0, 90 * time.Second, 2 * time.Hour, 400 * 24 * time.Hour}[r.intn(4)]
+			old := time.Now().Add(-age)
+			_ = os.Chtimes(hf, old, old)
+			_ = hosts.LookupHost("localhost.")
+			_ = hosts.LookupAddr("127.0.0.1")
+			if r.coin(50) {
+				hosts.VerifAdvance(6 * time.Second) // checked once more while unchanged
+				_ = hosts.LookupHost("localhost.")
+			}
+			if err := os.WriteFile(hf, []byte(content), 0644); err != nil {
+				return err
+			}
+			if r.coin(30) {
+				older := time.Now().Add(-age - time.Duration(r.rng(1, 50))*time.Minute) // restored from a backup: an older stamp than before
+				_ = os.Chtimes(hf, older, older)
+			}
+			hosts.VerifAdvance(6 * time.Second)
+		}
 		again := hostNames[r.intn(len(hostNames))] // asked repeatedly, both families: the table must not change by being read
 		for k := 0; k < 12; k++ {
 			bogus := r.coin(50)
